@@ -1,11 +1,15 @@
 #!/bin/bash
-# usage: tools/try_seeded.sh <dir with patch.diff> <PROP> [tier]  -- applies the patch to /repo, runs the check, reverts
+# usage: tools/try_seeded.sh <dir with patch.diff> <PROP> [tier]
+# applies the patch to a scratch worktree of /repo (shadowing /repo via PYTHONPATH), runs the check, removes the worktree.
+# (evidence is redirected: the run does not overwrite /verif/evidence/<PROP>.json)
 set -u
 d=$(realpath $1); p=$2; tier=${3:-quick}
-cd /repo || exit 2
-if ! git diff --quiet; then echo "/repo dirty"; exit 2; fi
-git apply "$d/patch.diff" || { echo "patch does not apply"; exit 2; }
+wt=/tmp/try-$(basename $d)-$$
+git -C /repo worktree add -q $wt HEAD || exit 2
+( cd $wt && git apply "$d/patch.diff" ) || { echo "patch does not apply"; git -C /repo worktree remove --force $wt; exit 2; }
 cd /verif
-./check $p --tier $tier > /var/tmp/try_$p.log 2>&1; rc=$?
-git -C /repo checkout -- .
-echo "rc=$rc"; grep -E "^(VIOLATION|KNOWN-FINDING|\[C|MACHINERY|SPEC-MISMATCH)" /var/tmp/try_$p.log | cut -c1-300 | head -${LINES_MAX:-12}
+cp evidence/$p.json /var/tmp/evidence_$p.bak 2>/dev/null
+PYTHONPATH=$wt ./check $p --tier $tier > /var/tmp/try_$p.log 2>&1; rc=$?
+cp /var/tmp/evidence_$p.bak evidence/$p.json 2>/dev/null
+git -C /repo worktree remove --force $wt
+echo "rc=$rc"; grep -E "^(VIOLATION|KNOWN-FINDING|\[C|MACHINERY|SPEC-MISMATCH)" /var/tmp/try_$p.log | cut -c1-250 | head -${LINES_MAX:-8}
